@@ -51,6 +51,14 @@ inductive Err
   | emptyFunderCache        -- ErrorCode::EmptyFunderCache     = Custom(1004)
   | emptyRecipientCache     -- ErrorCode::EmptyRecipientCache  = Custom(1005)
   | insufficientFunds       -- ProgramError::InsufficientFunds
+  -- the remaining classes are only produced by the account-set nestings of C09 (`Account/Nests.lean`)
+  | expectedSigner          -- ErrorCode::ExpectedSigner       = Custom(1001)
+  | addressMismatch         -- ErrorCode::AddressMismatch      = Custom(1002)
+  | illegalOwner            -- ProgramError::IllegalOwner
+  | incorrectProgramId      -- ProgramError::IncorrectProgramId
+  | notEnoughAccounts       -- ErrorCode::AdvanceError         = Custom(9004) (decode ran out of accounts)
+  | createAttempted         -- `Init` reached the account creation (a CPI; outside C09)
+  | panicked                -- the code panics (slice index)
 deriving Repr, DecidableEq
 
 /-- A program account type: the declaring program's id, the discriminant as bytes
